@@ -114,3 +114,32 @@ inductive UFOp where
   | add (d : BDoc) (wok : Bool)
   | flush (wok : Bool)
 end Ftdc
+
+/-! the schema-aware variant over a writer that may refuse -/
+namespace Ftdc
+namespace UStreamingDynamic
+/-- `FlushCollector` on the schema-aware variant with a writer that may refuse -/
+def flushW (c : UStreamingDynamic) (wok : Bool) : UStreamingDynamic × Bool :=
+  let (s', ok) := c.s.flushW wok
+  if ok ∧ c.s.info.2 ≠ 0 then ({ s := s', hash := none }, true) else ({ c with s := s' }, ok)
+
+/-- does `Add` flush first? (a sample after a reset with samples pending, or another schema) -/
+def needFlush (c : UStreamingDynamic) (d : BDoc) : Bool :=
+  match c.hash with
+  | none => decide (c.s.count > 0)
+  | some h => decide (h ≠ schemaKey d)
+
+def addWWith (c : UStreamingDynamic) (d : BDoc) (nf wok1 wok2 : Bool) : UStreamingDynamic × Bool :=
+  let (c1, ok) := if nf then c.flushW wok1 else (c, true)
+  if !ok then (c1, false) else
+  let (s', r) := c1.s.addW d wok2
+  ({ s := s', hash := some (schemaKey d) }, r)
+
+/-- `Add` with a writer that may refuse the schema-change flush (`wok1`) and the full-batch flush (`wok2`) -/
+def addW (c : UStreamingDynamic) (d : BDoc) (wok1 wok2 : Bool) : UStreamingDynamic × Bool :=
+  c.addWWith d (c.needFlush d) wok1 wok2
+end UStreamingDynamic
+inductive UDOp where
+  | add (d : BDoc) (wok1 wok2 : Bool)
+  | flush (wok : Bool)
+end Ftdc
